@@ -67,6 +67,8 @@ func checkC16(c *Ctx, r *Report) {
 		"R1/R2 in every module function reachable (call graph) from the untrusted-input roots — request handling, size/duration/PHC/config parsers, janitor loop, config-change handlers — each index, slice, force-unwrap, unchecked type assertion, variable divisor, variable make size, WriteHeader/Ticker precondition, explicit panic and close() is an obligation, discharged by a dominating test on the same SSA values or by a one-line reviewed table entry",
 		"R4 every path through processRequest writes a response (Write/WriteError/WriteEmpty or a callee that does) before returning",
 		"R5 obligations that execute in bare goroutines are marked process-fatal",
+		"R7 type invariant behind the force-unwrap discharges: no zero-valued Either (neither side set) is materialised outside package typeutils, so `!IsLeft()` implies the right side",
+		"R6 at most one response per request: a write that follows a callee which may already have answered is reachable only under error classes that callee reports without having written (so the client never finds a stray second response in place of its next answer)",
 	}
 	r.NotDec = []string{"panics inside dependencies on values that passed the listed preconditions", "nil dereferences (left to nilaway cross-reference)", "memory exhaustion, runtime deadlock aborts", "that the response written is well-formed HTTP (net/http is trusted)"}
 	li := BuildLocks(c)
@@ -121,6 +123,58 @@ func checkC16(c *Ctx, r *Report) {
 	r.Floor("C16.R1", len(reach), 150, "module functions reachable from the untrusted-input roots")
 	r.Floor("C16.R1", nIdx, 20, "index/slice obligations")
 	r.Floor("C16.R1", len(obs), 60, "panic obligations")
+
+	// ---- R7: the force-unwrap discharges above rely on "an Either has exactly one side": every Either
+	// value comes from typeutils.Left / Right; no zero-valued Either is ever materialised outside typeutils
+	isEither := func(t types.Type) bool {
+		n, ok := t.(*types.Named)
+		return ok && n.Obj().Pkg() != nil && n.Obj().Pkg().Path() == "reservoir/utils/typeutils" && n.Obj().Name() == "Either"
+	}
+	nEither, nFns7 := 0, 0
+	for _, f := range li.Fns {
+		if originPkgPath(f) == "reservoir/utils/typeutils" || f.Blocks == nil {
+			continue
+		}
+		nFns7++
+		seenBad := map[string]bool{}
+		eachInstr(f, func(in ssa.Instruction) {
+			if v, ok := in.(ssa.Value); ok && isEither(v.Type()) {
+				nEither++
+			}
+			var ops []*ssa.Value
+			ops = in.Operands(ops)
+			for _, op := range ops {
+				if op == nil || *op == nil {
+					continue
+				}
+				if k, ok := (*op).(*ssa.Const); ok && isEither(k.Type()) {
+					p := c.InstrPos(in)
+					if !seenBad[p] {
+						seenBad[p] = true
+						r.Fail("C16.R7", fnKey(f)+": zero-valued Either", p, "an Either with neither side set can reach a consumer here: `!IsLeft()` no longer implies that the right side is present, so ForceUnwrapRight (guarded that way) panics")
+					}
+				}
+			}
+			if a, ok := in.(*ssa.Alloc); ok && isEither(a.Type().Underlying().(*types.Pointer).Elem()) {
+				// a local Either variable: every read must come after an assignment
+				isStore := func(i2 ssa.Instruction) bool {
+					st, ok := i2.(*ssa.Store)
+					return ok && st.Addr == ssa.Value(a)
+				}
+				p := posOf(in)
+				p.i++
+				hits := walkFrom(p, isStore, func(i2 ssa.Instruction) bool {
+					u, ok := i2.(*ssa.UnOp)
+					return ok && u.Op == token.MUL && u.X == ssa.Value(a)
+				}, nil)
+				if len(hits) > 0 {
+					r.Fail("C16.R7", fnKey(f)+": Either variable read before assignment", c.InstrPos(hits[0]), "a declared-but-unassigned Either (neither side set) can be read here")
+				}
+			}
+		})
+	}
+	r.OkT("C16.R7", "no zero-valued Either outside package typeutils", "-", fmt.Sprintf("%d module functions scanned, %d Either-typed values, all produced by Left/Right, calls or copies", nFns7, nEither))
+	r.Floor("C16.R7", nEither, 2, "Either-typed values")
 
 	checkAnswered(c, r, li, "C16.R4")
 	if c.Tier == "thorough" {
@@ -225,14 +279,29 @@ func checkAnswered(c *Ctx, r *Report, li *LockInfo, rule string) {
 				n := calleeName(call)
 				if n == "fmt.Errorf" || n == "errors.New" {
 					out["nonnil"] = true
-					derivesFrom(rv, func(v ssa.Value) bool {
-						if u, ok := v.(*ssa.UnOp); ok && u.Op == token.MUL {
-							if gl, ok := u.X.(*ssa.Global); ok {
-								out[gl.Name()] = true
+					// only operands rendered with %w stay visible to errors.Is
+					var wrapped []ssa.Value
+					if format, ops, ok := sprintfOperands(call); ok && n == "fmt.Errorf" {
+						verbs := verbRe.FindAllString(format, -1)
+						for i, vb := range verbs {
+							if strings.HasSuffix(vb, "w") && i < len(ops) {
+								wrapped = append(wrapped, ops[i])
 							}
 						}
-						return false
-					})
+						if len(verbs) != len(ops) {
+							wrapped = ops // cannot align: keep the old over-approximation
+						}
+					}
+					for _, w := range wrapped {
+						derivesFrom(w, func(v ssa.Value) bool {
+							if u, ok := v.(*ssa.UnOp); ok && u.Op == token.MUL {
+								if gl, ok := u.X.(*ssa.Global); ok {
+									out[gl.Name()] = true
+								}
+							}
+							return false
+						})
+					}
 					return out
 				}
 			}
@@ -350,6 +419,167 @@ func checkAnswered(c *Ctx, r *Report, li *LockInfo, rule string) {
 			if !justified {
 				bad = append(bad, c.InstrPos(e))
 			}
+		}
+		// ---- at most one response per exchange: after a response has been written no second one may follow
+		{
+			isDirectWrite := func(in ssa.Instruction) bool {
+				call, ok := in.(*ssa.Call)
+				return ok && writes[calleeName(call)]
+			}
+			alwaysCall := func(in ssa.Instruction) bool {
+				if _, ok := in.(*ssa.Call); !ok {
+					return false
+				}
+				for _, g := range li.Callees[in] {
+					if always[g] && originPkgPath(g) == "reservoir/proxy" {
+						return true
+					}
+				}
+				return false
+			}
+			mayCall := func(in ssa.Instruction) *ssa.Function {
+				if _, ok := in.(*ssa.Call); !ok {
+					return nil
+				}
+				for _, g := range li.Callees[in] {
+					if originPkgPath(g) == "reservoir/proxy" && !always[g] && mayWrite(g) {
+						return g
+					}
+				}
+				return nil
+			}
+			// returns of g that can be reached after g has written, with their error classes;
+			// a return that hands back the error of the write itself is a failed write (the connection is gone)
+			type wret struct {
+				ret *ssa.Return
+				cl  map[string]bool
+			}
+			writtenReturns := func(g *ssa.Function) []wret {
+				var out []wret
+				eachInstr(g, func(in ssa.Instruction) {
+					if !(isDirectWrite(in) || alwaysCall(in) || mayCall(in) != nil) {
+						return
+					}
+					p := posOf(in)
+					p.i++
+					for _, e := range walkFrom(p, nil, isReturn, nil) {
+						ret := e.(*ssa.Return)
+						if isRecoverReturn(ret) {
+							continue
+						}
+						vals := retVals(ret)
+						if len(vals) > 0 {
+							last := vals[len(vals)-1]
+							if derivesFrom(last, func(v ssa.Value) bool { return v == in.(ssa.Value) }) {
+								continue // the write's own error
+							}
+						}
+						dup := false
+						for _, o := range out {
+							if o.ret == ret {
+								dup = true
+							}
+						}
+						if !dup {
+							out = append(out, wret{ret, classOf(g, ret)})
+						}
+					}
+				})
+				return out
+			}
+			var second []string
+			nPairs := 0
+			eachInstr(f, func(w2 ssa.Instruction) {
+				if !(isDirectWrite(w2) || alwaysCall(w2) || mayCall(w2) != nil) {
+					return
+				}
+				eachInstr(f, func(w1 ssa.Instruction) {
+					if w1 == w2 || !reachableInstr(w1, w2, nil) {
+						return
+					}
+					switch {
+					case isDirectWrite(w1) || alwaysCall(w1):
+						nPairs++
+						// a direct write followed by another one: allowed only if the second is unreachable once
+						// the first succeeded — approximated by: the second is guarded by the first's error being non-nil
+						if v1, ok := w1.(ssa.Value); ok {
+							for _, fc := range factsAt(f, w2) {
+								if bo, ok := fc.cond.(*ssa.BinOp); ok && bo.Op == token.NEQ && fc.truth && derivesFrom(bo.X, func(v ssa.Value) bool { return v == v1 }) {
+									return
+								}
+							}
+						}
+						second = append(second, fmt.Sprintf("%s can follow the response already written at %s", c.InstrPos(w2), c.InstrPos(w1)))
+					case mayCall(w1) != nil:
+						g := mayCall(w1)
+						v1 := w1.(ssa.Value)
+						for _, wr := range writtenReturns(g) {
+							nPairs++
+							cl := wr.cl
+							exact := !cl["nonnil"] && !cl["unknown"]
+							// follow only the branches of the caller that are consistent with this return's error class
+							skip := func(blk *ssa.BasicBlock, si int) bool {
+								iff, ok := blk.Instrs[len(blk.Instrs)-1].(*ssa.If)
+								if !ok {
+									return false
+								}
+								cond, positive := stripNot(iff.Cond)
+								onV1 := func(x ssa.Value) bool {
+									return derivesFrom(x, func(v ssa.Value) bool { return v == v1 })
+								}
+								if bo, ok := cond.(*ssa.BinOp); ok && (bo.Op == token.NEQ || bo.Op == token.EQL) && (isNilConst(bo.Y) || isNilConst(bo.X)) {
+									ev := bo.X
+									if isNilConst(bo.X) {
+										ev = bo.Y
+									}
+									if !onV1(ev) {
+										return false
+									}
+									// index of the edge on which err == nil
+									nilIdx := 0
+									if (bo.Op == token.NEQ) == positive {
+										nilIdx = 1
+									}
+									if !cl["nil"] {
+										return si == nilIdx
+									}
+									if len(cl) == 1 {
+										return si != nilIdx
+									}
+									return false
+								}
+								if call, ok := cond.(*ssa.Call); ok && calleeName(call) == "errors.Is" && onV1(call.Call.Args[0]) {
+									name := ""
+									if u, ok := call.Call.Args[1].(*ssa.UnOp); ok {
+										if gl, ok := u.X.(*ssa.Global); ok {
+											name = gl.Name()
+										}
+									}
+									if name == "" {
+										return false
+									}
+									trueIdx := 0
+									if !positive {
+										trueIdx = 1
+									}
+									if cl[name] {
+										return si != trueIdx
+									}
+									if exact {
+										return si == trueIdx
+									}
+								}
+								return false
+							}
+							excluded := !reachableInstr(w1, w2, skip)
+							if !excluded {
+								second = append(second, fmt.Sprintf("%s writes a response although %s may already have answered before its return at %s (error classes %v are not told apart by the caller)", c.InstrPos(w2), fnKey(g), c.InstrPos(wr.ret), keysOf(wr.cl)))
+							}
+						}
+					}
+				})
+			})
+			r.Check(len(second) == 0, strings.Replace(rule, "R4", "R6", 1), name+": at most one response per exchange", c.Pos(f.Pos()), fmt.Sprintf("%d write-after-write pairs examined; each second write is excluded by the error class the first reports", nPairs), "a second response can be written for one request (on a tunnel it is read as the answer to the next request): "+strings.Join(uniq(second), "; "))
 		}
 		key := name + ": every return is preceded by a response write"
 		if len(bad) > 0 {
